@@ -482,7 +482,11 @@ def build_graph(ctx, source_kwargs, late=None):
         has_child = set(u for n in sc['graph'] for u in n.get('up', []))
         for n in sc['graph']:
             if n['id'] not in has_child and n['id'] in N:
-                N[n['id']].start()
+                try:
+                    N[n['id']].start()
+                except Exception as e:     # noqa  (start() on a pipeline that has no source must change nothing - and not raise)
+                    from .pipeline import describe_exc
+                    ctx.rec.rec('restart_exc', n['id'], describe_exc(e))
     return N
 
 
